@@ -770,6 +770,10 @@ def math_fn(n):
         return lambda y, x: _arctan2(y, x) if (isinstance(x, E) or isinstance(y, E)) else real(y, x)
     if n == 'isnan':
         return lambda x: _isnan(x) if isinstance(x, E) else real(x)
+    if n == 'hypot':
+        # two-argument Euclidean norm, as the real function sqrt(x*x + y*y)
+        return lambda x, y: (lift(x) * lift(x) + lift(y) * lift(y)).sqrt() \
+            if (isinstance(x, E) or isinstance(y, E)) else real(x, y)
     m = _MATHMAP.get(n, n)
 
     def f(x, *a):
